@@ -46,7 +46,7 @@ pub fn hook(gn: &mut Gen, w: &mut World) -> Option<Step> {
             if !w.is_active_member(node, g) || w.has_pending_commit(node, g) {
                 return None;
             }
-            HostileOp::CraftedCommit { g, kind: gn.rng().below(7) as u8, victim }
+            HostileOp::CraftedCommit { g, kind: gn.rng().below(8) as u8, victim }
         }
         "h_proposal" => {
             if !w.is_active_member(node, g) || w.has_pending_commit(node, g) {
